@@ -9,7 +9,7 @@ PID = "C18"
 
 NONLINEAR = ["P", "e", "omega", "M0", "s"]
 NON_NORMAL = ["Uniform", "HalfNormal", "StudentT", "Laplace", "TruncatedNormal", "LogNormal", "Cauchy", "Logistic",
-              "Deterministic", "MvNormalComponent", "ScaledNormal", "float"]
+              "Deterministic", "MvNormalComponent", "ScaledNormal", "ExpOfNormal", "AbsOfNormal", "SqrOfNormal", "float"]
 VALID_LINEAR = ["Normal", "NormalMean", "NormalOtherUnit"]
 
 
@@ -108,6 +108,10 @@ def make_var(name, kind):
     if kind == "ScaledNormal":
         base = pm.Normal(name + "_raw", 0, 1)
         return pm.Deterministic(name, 3.0 * base)
+    if kind in ("ExpOfNormal", "AbsOfNormal", "SqrOfNormal"):
+        # a one-argument function of a Normal variable (log-normal / half-normal / scaled chi^2), wrapped as a named Deterministic
+        base = pm.Normal(name + "_raw", 0, 1)
+        return pm.Deterministic(name, {"ExpOfNormal": pt.exp, "AbsOfNormal": pt.abs, "SqrOfNormal": pt.sqr}[kind](base))
     if kind == "float":
         return 1.0
     raise KeyError(kind)
@@ -589,7 +593,7 @@ def main():
     chk = core.Check(
         PID, "exploration",
         "for (poly_trend, n_offsets) in {(1,0),(2,1),(3,2)}: the valid spec; every single mutilation {omitted, no unit, "
-        "non-convertible unit} of every parameter; every non-Normal prior (12 kinds) on every linear parameter and offset; valid "
+        "non-convertible unit} of every parameter; every non-Normal prior (15 kinds) on every linear parameter and offset; valid "
         "variations (equivalent units, Normal with non-zero mean); mutilation+valid-variation pairs (thorough: also pairs of "
         "mutilations); JokerPrior.default argument mutilations; data forms x n_sources 1..3 x n_offsets 0..2 through "
         "TheJoker.marginal_ln_likelihood; every call history of length 2..3 over source counts {1,2,3} on ONE TheJoker with ONE container "
